@@ -14,9 +14,9 @@ CutLast(rs, cut) == IF cut /\ rs[Len(rs)].bodyLen > 0 THEN [rs EXCEPT ![Len(rs)]
 Sane == {s \in Shapes : (s.expect100 => s.bl > 0) /\ (s.big => s.bl > 0) /\ ~(s.bad /\ s.big) /\ ~(s.bad /\ s.expect100)
                          /\ ~(s.hclose /\ (s.close \/ s.bad \/ s.big \/ s.expect100))}
 
-QuickConfigs == {<<FALSE, 0, FALSE>>, <<TRUE, 1, TRUE>>}
-AllConfigs == {<<tr, wf, cut>> : tr \in BOOLEAN, wf \in 0 .. 2, cut \in BOOLEAN}
-PlainConfig == {<<FALSE, 0, FALSE>>}
+QuickConfigs == {<<FALSE, 0, FALSE, FALSE>>, <<TRUE, 1, TRUE, FALSE>>, <<FALSE, 0, FALSE, TRUE>>}
+AllConfigs == {<<tr, wf, cut, dn>> : tr \in BOOLEAN, wf \in 0 .. 2, cut \in BOOLEAN, dn \in BOOLEAN}
+PlainConfig == {<<FALSE, 0, FALSE, FALSE>>}
 
 RECURSIVE Layout(_, _)
 Layout(ss, at) == IF ss = << >> THEN << >>
@@ -30,6 +30,6 @@ SeqsUpTo(S, n) == IF n = 0 THEN {<< >>}
                   ELSE LET P == SeqsUpTo(S, n - 1) IN P \cup {Append(p, s) : p \in {q \in P : Len(q) = n - 1}, s \in S}
 
 MCInit == \E ss \in SeqsUpTo(Sane, MaxReqs) \ {<< >>}, st \in BOOLEAN, c \in Configs :
-             InitWith(CutLast(Layout(ss, 0), c[3]), [streaming |-> st, idle |-> "inloop", trace |-> c[1], wfail |-> c[2]])
+             InitWith(CutLast(Layout(ss, 0), c[3]), [streaming |-> st, idle |-> "inloop", trace |-> c[1], wfail |-> c[2], deny |-> c[4]])
 MCSpec == MCInit /\ [][Next]_vars
 =============================================================================
